@@ -7,13 +7,54 @@
   returns the value the receiver denotes afterwards. Every Go operation that can panic (slice
   indexing without a guard) is an explicit `.panic`, guarded exactly where the Go code guards it.
 
-  Not modelled: jsonStringOrInteger path elements (only made by the JSON Pointer reader).
+  Path elements are `PElem`: a node, or a `jsonStringOrInteger` token (string_or_integer.go; made only
+  by the JSON Pointer reader `readPointer`), whose string-or-index reading is decided when the
+  element is used: `jsonObject.patch` reads it as a key, `jsonList.patch` as an index (when
+  `strconv.Atoi` succeeds); everywhere else it is an unexpected path element. A `VDiff` (what
+  `Diff` produces) has node-only paths and is lifted with `liftDiff`.
 -/
 import JdModel.Patch
+import JdModel.Pointer
 import JdModel.V1.Diff
 
 namespace Jd.V1
 open Jd
+
+/-- a v1 path element: a node, or a `jsonStringOrInteger` token (the decoded pointer token) -/
+inductive PElem where
+  | node (n : Json)
+  | sori (s : String)
+deriving Repr, Inhabited
+
+abbrev PPath := List PElem
+
+/-- a v1 `DiffElement` whose path may hold `jsonStringOrInteger` tokens -/
+structure PHunk where
+  path : PPath
+  old  : List Json := []
+  new  : List Json := []
+deriving Repr, Inhabited
+
+abbrev PDiff := List PHunk
+
+def liftPath (p : List Json) : PPath := p.map .node
+
+def Hunk.toP (h : Hunk) : PHunk := { path := liftPath h.path, old := h.old, new := h.new }
+
+def liftDiff (d : VDiff) : PDiff := d.map Hunk.toP
+
+/-- the path element as an object key: `jsonObject.patch` turns a jsonStringOrInteger into a jsonString -/
+def asKey : PElem → Option String
+  | .node (.str k) => some k
+  | .sori s => some s
+  | _ => none
+
+/-- the path element as a list index (float64 bits): `jsonList.patch` turns a jsonStringOrInteger
+    whose `strconv.Atoi` succeeds into `jsonNumber(float64(i))` -/
+def asIndexBits : PElem → Option UInt64
+  | .node (.num b) => some b
+  | .sori s => (atoi? s).map (fun i => (Float.ofInt i).toBits)
+  | _ => none
 
 /-- metadata recognised in a path metadata array: "set", "multiset", "MERGE"; everything else
     (setkeys=…, non-strings, nil) is ignored -/
@@ -25,47 +66,53 @@ def metaOfItems : List Json → Metas
   | _ :: r => metaOfItems r
 
 /-- `path.next()` with the metadata collected so far: (next element, metadata, rest) -/
-def pathNextAux (acc : Metas) : List Json → Json × Metas × List Json
-  | [] => (.void, acc, [])
-  | .arr .raw items :: r => pathNextAux (acc ++ metaOfItems items) r
-  | .obj kvs :: r =>
+def pathNextAux (acc : Metas) : PPath → PElem × Metas × PPath
+  | [] => (.node .void, acc, [])
+  | .node (.arr .raw items) :: r => pathNextAux (acc ++ metaOfItems items) r
+  | .node (.obj kvs) :: r =>
     -- a JSON object implies a set
-    (.obj kvs, if !hasSet acc && !hasMset acc then acc ++ [.set] else acc, r)
+    (.node (.obj kvs), if !hasSet acc && !hasMset acc then acc ++ [.set] else acc, r)
   | n :: r => (n, acc, r)
 
-def pathNext (p : List Json) : Json × Metas × List Json := pathNextAux [] p
+def pathNext (p : PPath) : PElem × Metas × PPath := pathNextAux [] p
 
-theorem pathNextAux_le (acc : Metas) (p : List Json) :
+theorem pathNextAux_le (acc : Metas) (p : PPath) :
     (pathNextAux acc p).2.2.length ≤ p.length := by
   induction p generalizing acc with
   | nil => simp [pathNextAux]
   | cons x r ih =>
     cases x with
-    | arr t items =>
-      cases t <;> simp [pathNextAux]
-      exact Nat.le_succ_of_le (ih _)
-    | _ => simp [pathNextAux]
+    | sori s => simp [pathNextAux]
+    | node n =>
+      cases n with
+      | arr t items =>
+        cases t <;> simp [pathNextAux]
+        exact Nat.le_succ_of_le (ih _)
+      | _ => simp [pathNextAux]
 
-theorem pathNext_lt (p : List Json) (h : p ≠ []) : (pathNext p).2.2.length < p.length := by
+theorem pathNext_lt (p : PPath) (h : p ≠ []) : (pathNext p).2.2.length < p.length := by
   cases p with
   | nil => exact absurd rfl h
   | cons x r =>
     unfold pathNext
     cases x with
-    | arr t items =>
-      cases t <;> simp [pathNextAux]
-      exact Nat.lt_succ_of_le (pathNextAux_le _ _)
-    | _ => simp [pathNextAux]
+    | sori s => simp [pathNextAux]
+    | node n =>
+      cases n with
+      | arr t items =>
+        cases t <;> simp [pathNextAux]
+        exact Nat.lt_succ_of_le (pathNextAux_le _ _)
+      | _ => simp [pathNextAux]
 
 /-- `path.isLeaf()`: empty, or nothing but one metadata array -/
-def pathIsLeaf : List Json → Bool
+def pathIsLeaf : PPath → Bool
   | [] => true
-  | [.arr .raw _] => true
+  | [.node (.arr .raw _)] => true
   | _ => false
 
 /-- `path.getPatchStrategy() == mergePatchStrategy`: the FIRST element is a metadata array holding "MERGE" -/
-def pathIsMerge : List Json → Bool
-  | .arr .raw items :: _ => items.any (fun x => match x with | .str s => s == "MERGE" | _ => false)
+def pathIsMerge : PPath → Bool
+  | .node (.arr .raw items) :: _ => items.any (fun x => match x with | .str s => s == "MERGE" | _ => false)
   | _ => false
 
 /-- `int(jn)` for a path index (amd64: NaN and out-of-range values give the minimum integer) -/
@@ -79,7 +126,7 @@ set_option linter.unusedVariables false in
 /-- `patch(node, …)` of patch_common.go for a node that is not an object: scalars, void, and in merge
     mode lists / sets / multisets. In merge mode a non-leaf path creates nested objects; the recursion
     `node.patch(rest)` comes back here with the same node, so it is a recursion on the path. -/
-def patchCommon (merge : Bool) (n : Json) (pa : List Json) (old new : List Json) : Outcome Json :=
+def patchCommon (merge : Bool) (n : Json) (pa : PPath) (old new : List Json) : Outcome Json :=
   if hl : pathIsLeaf pa then
     if old.length > 1 || new.length > 1 then .err
     else if merge then
@@ -88,8 +135,9 @@ def patchCommon (merge : Bool) (n : Json) (pa : List Json) (old new : List Json)
     else .err
   else if !merge then .err
   else
+    -- `next.(jsonString)`: a jsonStringOrInteger is NOT accepted here
     match hn : pathNext pa with
-    | (.str k, _, rest) =>
+    | (.node (.str k), _, rest) =>
       match patchCommon merge n rest old new with
       | .ok v => if !v.isVoid || !pathIsLeaf rest then .ok (.obj [(k, v)]) else .ok (.obj [])
       | e => e
@@ -105,7 +153,7 @@ decreasing_by
 set_option linter.unusedVariables false in
 /-- `jsonObject.patch` on a freshly created EMPTY object (merge mode, missing key, more path ahead):
     every key is missing again, so this is a recursion on the path -/
-def patchEmptyObj (merge : Bool) (pa : List Json) (old new : List Json) : Outcome Json :=
+def patchEmptyObj (merge : Bool) (pa : PPath) (old new : List Json) : Outcome Json :=
   if pa.isEmpty && (old.length > 1 || new.length > 1) then .err
   else if hl : pathIsLeaf pa then
     if merge then .ok (Json.singleValue new)
@@ -113,14 +161,16 @@ def patchEmptyObj (merge : Bool) (pa : List Json) (old new : List Json) : Outcom
     else .err
   else
     match hn : pathNext pa with
-    | (.str k, _, rest) =>
-      let child :=
-        if merge && !pathIsLeaf rest then patchEmptyObj merge rest old new
-        else patchCommon merge .void rest old new
-      match child with
-      | .ok v => if v.isVoid then .ok (.obj []) else .ok (.obj [(k, v)])
-      | e => e
-    | _ => .err
+    | (e, _, rest) =>
+      match asKey e with
+      | some k =>
+        let child :=
+          if merge && !pathIsLeaf rest then patchEmptyObj merge rest old new
+          else patchCommon merge .void rest old new
+        match child with
+        | .ok v => if v.isVoid then .ok (.obj []) else .ok (.obj [(k, v)])
+        | e => e
+      | none => .err
 termination_by pa.length
 decreasing_by
   have hne : pa ≠ [] := by
@@ -131,7 +181,7 @@ decreasing_by
 
 /-- the node standing in for a missing object key, patched along `pa`: void, or in merge mode with
     more path ahead a new empty object -/
-def patchMissing (merge : Bool) (pa : List Json) (old new : List Json) : Outcome Json :=
+def patchMissing (merge : Bool) (pa : PPath) (old new : List Json) : Outcome Json :=
   if merge && !pathIsLeaf pa then patchEmptyObj merge pa old new
   else patchCommon merge .void pa old new
 
@@ -166,7 +216,7 @@ def patchMsetLeaf (m : Metas) (a old new : List Json) : Outcome Json :=
 
 mutual
 /-- `n.patch(pathBehind, pathAhead, oldValues, newValues, strategy)` -/
-def patchNode (merge : Bool) (n : Json) (pa : List Json) (old new : List Json) : Outcome Json :=
+def patchNode (merge : Bool) (n : Json) (pa : PPath) (old new : List Json) : Outcome Json :=
   match n with
   | .obj kvs =>
     if pa.isEmpty && (old.length > 1 || new.length > 1) then .err
@@ -175,8 +225,11 @@ def patchNode (merge : Bool) (n : Json) (pa : List Json) (old new : List Json) :
       else if equals [] (.obj kvs) (Json.singleValue old) then .ok (Json.singleValue new)
       else .err
     else
-      match pathNext pa with
-      | (.str k, _, rest) =>
+      let nx := pathNext pa
+      let rest := nx.2.2
+      -- a jsonStringOrInteger is read as a key
+      match asKey nx.1 with
+      | some k =>
         match alookup k kvs with
         | some _ => do
           let v ← patchObjChild merge kvs k rest old new
@@ -184,7 +237,7 @@ def patchNode (merge : Bool) (n : Json) (pa : List Json) (old new : List Json) :
         | none => do
           let v ← patchMissing merge rest old new
           if v.isVoid then pure (.obj (aerase k kvs)) else pure (.obj (ainsert k v kvs))
-      | _ => .err
+      | none => .err
   | .arr t xs =>
     -- jsonArray.patch dispatches on the metadata of the next path element
     let nx := pathNext pa
@@ -197,7 +250,7 @@ def patchNode (merge : Bool) (n : Json) (pa : List Json) (old new : List Json) :
         else .err
       else
         match nx.1 with
-        | .obj po =>
+        | .node (.obj po) =>
           if nx.2.2.length > 0 then
             patchKeyed nx.2.1 (identObj nx.2.1 po) po nx.2.2 old new [] xs
           else patchSetLeaf nx.2.1 xs old new
@@ -210,7 +263,7 @@ def patchNode (merge : Bool) (n : Json) (pa : List Json) (old new : List Json) :
         else .err
       else
         match nx.1 with
-        | .obj po => if po.isEmpty then patchMsetLeaf nx.2.1 xs old new else .err
+        | .node (.obj po) => if po.isEmpty then patchMsetLeaf nx.2.1 xs old new else .err
         | _ => .err
     | _ =>
       if old.length > 1 || new.length > 1 then .err
@@ -221,8 +274,9 @@ def patchNode (merge : Bool) (n : Json) (pa : List Json) (old new : List Json) :
         if pa.isEmpty then
           if equals [] (.arr .list xs) oldV then .ok newV else .err
         else
-          match nx.1 with
-          | .num bits =>
+          -- a jsonStringOrInteger whose Atoi succeeds is read as an index
+          match asIndexBits nx.1 with
+          | some bits =>
             let rest := nx.2.2
             let i0 := floatToInt bits
             let len : Int := xs.length
@@ -254,12 +308,12 @@ def patchNode (merge : Bool) (n : Json) (pa : List Json) (old new : List Json) :
                          else patchCommon false .void rest old new)
                 let l ← setAtP xs i r
                 pure (.arr .list l)
-          | _ => .err
+          | none => .err
   | n => patchCommon merge n pa old new
 termination_by (sizeOf n, 0)
 
 /-- `o[k].patch(rest, …)` for an existing key: structural descent into the object -/
-def patchObjChild (merge : Bool) (kvs : List (String × Json)) (k : String) (rest : List Json)
+def patchObjChild (merge : Bool) (kvs : List (String × Json)) (k : String) (rest : PPath)
     (old new : List Json) : Outcome Json :=
   match kvs with
   | [] => .panic
@@ -269,7 +323,7 @@ def patchObjChild (merge : Bool) (kvs : List (String × Json)) (k : String) (res
 termination_by (sizeOf kvs, 0)
 
 /-- `l[i].patch(rest, …)`: structural descent into the list (strict strategy) -/
-def patchListChild (i : Nat) (rest : List Json) (old new : List Json) (xs : List Json) : Outcome Json :=
+def patchListChild (i : Nat) (rest : PPath) (old new : List Json) (xs : List Json) : Outcome Json :=
   match xs, i with
   | [], _ => .panic
   | x :: _, 0 => patchNode false x rest old new
@@ -281,7 +335,7 @@ termination_by (sizeOf xs, 0)
     the effect is only what the nested call did to the member object in place: nothing when it
     failed or when `rest` is a leaf (it returns the new value without touching the map), the
     updated object otherwise -/
-def patchKeyed (m : Metas) (lookingFor : UInt64) (po : List (String × Json)) (rest : List Json)
+def patchKeyed (m : Metas) (lookingFor : UInt64) (po : List (String × Json)) (rest : PPath)
     (old new : List Json) (pre : List Json) (xs : List Json) : Outcome Json :=
   match xs with
   | [] => .err
@@ -300,13 +354,19 @@ termination_by (sizeOf xs, 0)
 end
 
 /-- `patchAll(n, d)`: the hunks in order, each with the strategy its own path says -/
-def patchAll (n : Json) : VDiff → Outcome Json
+def patchAllP (n : Json) : PDiff → Outcome Json
   | [] => .ok n
   | h :: d =>
     match patchNode (pathIsMerge h.path) n h.path h.old h.new with
-    | .ok n' => patchAll n' d
+    | .ok n' => patchAllP n' d
     | .err => .err
     | .panic => .panic
+
+/-- `n.Patch(d)` for a diff whose paths may hold jsonStringOrInteger tokens -/
+def patchP (n : Json) (d : PDiff) : Outcome Json := patchAllP n d
+
+/-- `patchAll(n, d)` for a diff with node-only paths -/
+def patchAll (n : Json) (d : VDiff) : Outcome Json := patchAllP n (liftDiff d)
 
 /-- `n.Patch(d)` -/
 def patchM (n : Json) (d : VDiff) : Outcome Json := patchAll n d
@@ -368,7 +428,7 @@ def refreshPath : Json → List Json → List (Option Nat) → List Json
 def patchAllShared (n : Json) : List (Hunk × List (Option Nat)) → Outcome Json
   | [] => .ok n
   | (h, al) :: d =>
-    match patchNode (pathIsMerge h.path) n (refreshPath n h.path al) h.old h.new with
+    match patchNode (pathIsMerge (liftPath h.path)) n (liftPath (refreshPath n h.path al)) h.old h.new with
     | .ok n' => patchAllShared n' d
     | .err => .err
     | .panic => .panic
